@@ -375,6 +375,7 @@ def run(rep: Report, prog: Program, tier: str) -> None:
         rep.ok("C04-DEMUX", "is_rtcp: no RTP packet with an allowed payload type is classified as RTCP", sample=f"{2 * len(sendable)} (marker, payload type) pairs")
 
     pump_rule(rep, prog)
+    start_eval_rule(rep, prog)
 
 
 def pump_rule(rep: Report, prog: Program) -> None:
@@ -490,3 +491,96 @@ def pump_rule(rep: Report, prog: Program) -> None:
             rep.fail(mk_finding(prog, PROP, RULE, recv, recv.node, f"[{label}] " + "; ".join(problems), construct=f"pump: {label}"))
         else:
             rep.ok(RULE, label, sample=str(want) if want else "nothing delivered")
+
+
+def start_eval_rule(rep: Report, prog: Program) -> None:
+    """C04-STARTEVAL: RTCDtlsTransport.start() evaluated with its three steps stubbed (handshake / identity check / key derivation each succeed or mark the
+    transport failed): `connected` and the data pump only after all three succeeded, the identity is checked only after a successful handshake, keys are derived only
+    for a validated peer, and the DTLS role follows the negotiated role (or the ICE role when it is `auto`)."""
+    import itertools
+
+    from .objhook import make_hook
+    RULE = "C04-STARTEVAL"
+    rep.rule(RULE, "start(): connected / data pump / SRTP keys only after handshake and identity check succeeded; role selection", min_instances=10)
+    st_f = prog.func("rtcdtlstransport.RTCDtlsTransport.start")
+    state_cls = prog.cls("rtcdtlstransport.State")
+    log: List[str] = []
+    outcome: Dict[str, bool] = {}
+    ST: Dict[str, Any] = {}
+
+    def extra(call: ast.Call, ev: Evaluator):
+        name = unparse(call.func)
+        me = ev.env.get("self")
+        if name in ("SSL.Connection",):
+            return SimpleNamespace(kind="ssl")
+        if name.endswith("_create_ssl_context"):
+            return SimpleNamespace(kind="ctx")
+        if name in ("self._ssl.set_accept_state", "self._ssl.set_connect_state"):
+            log.append(name.rsplit(".", 1)[-1])
+            return None
+        if name == "self._do_handshake":
+            log.append("handshake")
+            if not outcome["hs"]:
+                me._state = ST["FAILED"]
+            return None
+        if name == "self._validate_peer_identity":
+            log.append("identity")
+            if not outcome["id"]:
+                me._state = ST["FAILED"]
+            return None
+        if name == "self._setup_srtp":
+            log.append("keys")
+            if not outcome["srtp"]:
+                me._state = ST["FAILED"]
+            else:
+                me._rx_srtp = "rx"
+                me._tx_srtp = "tx"
+            return None
+        if name == "self.__run":
+            return "PUMP"
+        if name == "asyncio.ensure_future":
+            v = ev.ev(call.args[0])
+            log.append(f"task:{v}")
+            return SimpleNamespace(task=v)
+        if name in ("self.__log_debug", "self.emit"):
+            return None
+        return NotImplemented
+    oh = make_hook(prog, extra)
+    for n_ in ("NEW", "CONNECTING", "CONNECTED", "CLOSED", "FAILED"):
+        ST[n_] = oh.enum_member(state_cls, n_)
+    for role, ice_role, hs, idok, srtp in itertools.product(("auto", "server", "client"), ("controlling", "controlled"), (True, False), (True, False), (True, False)):
+        if (not hs and not (idok and srtp)) or (not idok and not srtp):
+            continue  # later steps are irrelevant once an earlier one failed: keep one representative
+        del log[:]
+        outcome.update(hs=hs, id=idok, srtp=srtp)
+        me = SimpleNamespace(__cls__=st_f.cls, _state=ST["NEW"], _role=role, transport=SimpleNamespace(role=ice_role), _ssl=None, _task=None, _srtp_profiles=["p"], _rx_srtp=None, _tx_srtp=None)
+        setattr(me, "__local_certificate", SimpleNamespace())
+        label = f"role {role}, ICE {ice_role}, handshake {'ok' if hs else 'fails'}, identity {'ok' if idok else 'mismatch'}, key derivation {'ok' if srtp else 'fails'}"
+        try:
+            oh.run_method(st_f, me, [SimpleNamespace(fingerprints=["fp"], role="auto")], {})
+        except Raised as ex:
+            rep.fail(mk_finding(prog, PROP, RULE, st_f, getattr(ex, "node", None), f"[{label}] start() raises {ex.name}", construct=f"start raises {ex.name}"))
+            continue
+        except Unknown as ex:
+            raise AnalysisError(f"{RULE} cannot evaluate start() [{label}]: {ex}")
+        all_ok = hs and idok and srtp
+        problems = []
+        want_state = ST["CONNECTED"] if all_ok else ST["FAILED"]
+        if me._state is not want_state:
+            problems.append(f"final state {getattr(me._state, 'name', me._state)}, expected {want_state.name}")
+        if ("task:PUMP" in log) != all_ok or (me._task is not None) != all_ok:
+            problems.append(f"data pump {'started' if 'task:PUMP' in log else 'not started'} (task handle {'set' if me._task is not None else 'unset'})")
+        if ("identity" in log) != hs:
+            problems.append("the peer identity is " + ("checked although the handshake failed" if "identity" in log else "not checked"))
+        if ("keys" in log) != (hs and idok):
+            problems.append("SRTP keys are " + ("derived for a peer whose identity was not validated" if "keys" in log else "not derived"))
+        if log[:1] and "handshake" in log and log.index("handshake") > (log.index("identity") if "identity" in log else 99):
+            problems.append("identity checked before the handshake")
+        eff_role = role if role != "auto" else ("server" if ice_role == "controlling" else "client")
+        want_call = "set_accept_state" if eff_role == "server" else "set_connect_state"
+        if [x for x in log if x.startswith("set_")] != [want_call]:
+            problems.append(f"DTLS {[x for x in log if x.startswith('set_')]} for role {eff_role}, expected {want_call}")
+        if problems:
+            rep.fail(mk_finding(prog, PROP, RULE, st_f, st_f.node, f"[{label}] " + "; ".join(problems), construct="start: " + problems[0][:60]))
+        else:
+            rep.ok(RULE, label, sample=" -> ".join(log))
